@@ -939,7 +939,8 @@ impl Arena {
       return Err(Error::ReadOnly);
     }
 
-    if mem::size_of::<T>() == 0 {
+    // a zero sized `T` still has an alignment, only skip the alignment when there is nothing to align.
+    if mem::size_of::<T>() == 0 && (extra == 0 || mem::align_of::<T>() == 1) {
       return self.alloc_bytes_in(extra);
     }
 
